@@ -773,7 +773,7 @@ func (x *Exec) builtin(name string, in *ssa.Call, args []AV, fr *frame, h *Heap)
 				elems = append(elems, h.objs[base.obj].elems...)
 			}
 			elems = append(elems, h.objs[args[1].obj].elems...)
-			if len(elems) <= 6 {
+			if len(elems) <= x.appendCap() {
 				id := h.alloc(&aobj{kind: 'l', elems: elems})
 				fr.vals[in] = AV{k: 'L', tri: 2, obj: id, elemK: base.elemK}
 				return false
@@ -1206,4 +1206,18 @@ func (x *Exec) modelSort(a *activation, b *ssa.BasicBlock, i int, in *ssa.Call, 
 		a.cont(b, i+1, fr.clone(), h2, p2)
 	})
 	return true
+}
+
+// appendCap: how long a list built by append keeps one cell per element. Long
+// concrete lists built in loops multiply the states (every element can be of
+// every kind); the rules that need element identity (K-ORDER, the table
+// constructor) ask for more.
+func (x *Exec) appendCap() int {
+	if x.tableMode {
+		return 64
+	}
+	if x.ord != nil {
+		return maxConcreteList
+	}
+	return 3
 }
